@@ -1408,6 +1408,7 @@ impl Director for TwinDirector {
         if self.continuation.is_none() && matches!(self.program.front(), Some(Step::Reconnect { .. })) {
             // what the broker still had to say is lost with the connection
             self.inner.broker.outq.clear();
+            self.held.clear();
             return TopDec::DropConn;
         }
         // the broker's answers enter the inbound stream as soon as they exist, so that their place
